@@ -527,6 +527,7 @@ func (c *diskCache) availableOrTryProxy(kind cache.EntryKind, hash string, size 
 					// Race condition, was the item replaced after we released the lock?
 					log.Printf("Warning: expected %s to on disk to have size %d, found %d",
 						blobPath, size, foundSize)
+					_ = f.Close()
 				} else {
 					_, err = f.Seek(offset, io.SeekStart)
 					return f, foundSize, false, err
